@@ -82,7 +82,47 @@ theorem credentials_enabled_when_asked (blocks : List OptBlock) (s : Srv) (b : O
     (hf : firstBlock (sortBlocks blocks) s = some b) (hb : b.logCreds = true) : applyOpts blocks s = (true, true) := by
   simp [applyOpts, applyOptsOrder, hf, hb]
 
+/-- **the redirect server.** The server automatic HTTPS adds for HTTP->HTTPS redirects logs credentials only if
+    a configured server that qualifies for automatic HTTPS has them enabled — it never invents the flag. -/
+theorem redirect_server_credentials_come_from_a_tls_server : ∀ (srvs : List TlsSrv),
+    redirectCreds srvs = true → ∃ s ∈ srvs, s.qualifies = true ∧ s.logs = some true
+  | [], h => by simp [redirectCreds, redirectLogs] at h
+  | s :: r, h => by
+    unfold redirectCreds redirectLogs at h
+    cases hr : redirectLogs r with
+    | some f =>
+      simp [hr] at h
+      have : redirectCreds r = true := by simp [redirectCreds, hr, h]
+      rcases redirect_server_credentials_come_from_a_tls_server r this with ⟨t, ht, hq⟩
+      exact ⟨t, by simp [ht], hq⟩
+    | none =>
+      simp only [hr] at h
+      cases hq : s.qualifies with
+      | false => simp [hq] at h
+      | true =>
+        simp only [hq, if_true] at h
+        cases hl : s.logs with
+        | none => simp [hl] at h
+        | some f =>
+          simp [hl] at h
+          exact ⟨s, by simp, hq, by rw [hl, h]⟩
+
+/-- …and it is the LAST qualifying server with a `logs` object that decides: credentials enabled on an earlier
+    server do not reach the redirect server when a later one has them off -/
+theorem redirect_server_takes_last (srvs : List TlsSrv) (s : TlsSrv) (f : Bool)
+    (hq : s.qualifies = true) (hl : s.logs = some f) : redirectCreds (srvs ++ [s]) = f := by
+  have key : ∀ l : List TlsSrv, redirectLogs (l ++ [s]) = some f := by
+    intro l
+    induction l with
+    | nil => simp [redirectLogs, hq, hl]
+    | cons t r ih => simp [redirectLogs, ih]
+  simp [redirectCreds, key srvs]
+
 /-! non-vacuity -/
+-- the harness' configuration: tlsA (credentials on), tlsB (off): the redirect server has them off
+example : redirectCreds [⟨true, some true⟩, ⟨true, some false⟩] = false := by decide
+example : redirectCreds [⟨true, some false⟩, ⟨false, some true⟩, ⟨true, none⟩] = false ∧
+    redirectCreds [⟨true, some true⟩, ⟨true, none⟩] = true := by decide
 def exBlocks : List OptBlock := [⟨[], false⟩, ⟨str ":8001", true⟩, ⟨str "127.0.0.1:8002", false⟩]
 example : sortBlocks exBlocks = [⟨str "127.0.0.1:8002", false⟩, ⟨str ":8001", true⟩, ⟨[], false⟩] := by decide
 -- the specific block wins over the catch-all although it is written after it
